@@ -24,7 +24,7 @@ func (c09) Meta() fw.Meta {
 	return fw.Meta{
 		ID: "C09",
 		Rule: "case = one scenario through the real binary: pairs of files {identical bytes, same content written separately, k slots perturbed (other value / value->NaN / NaN->value / one ulp apart / +0 vs -0 / NaN payloads / +-Inf), unrelated}, equal or different layouts, either side missing, glob trees with 0/1/all files differing, -archive all or one id, windows {default, narrow, past, degenerate, beyond finest retention}. " +
-			"oracle (library fetches at the clock printed in the now: line): expected set = slots of the selected archives in the window whose values are not (both NaN or numerically equal); exit 1 <=> set non-empty or a side missing (with an err: line, never exit 2); printed records == the set in archive-then-time order with both values parsed back bit-exactly and destMinusSrc == dest-src (NaN if either missing); " +
+			"oracle (library fetches at the clock printed in the now: line): expected set = slots of the selected archives in the window whose values are not (both NaN or numerically equal); exit 1 <=> set non-empty or a side missing (with an err: line, never exit 2); printed records == the set (compared after ordering both by archive and time) with both values parsed back bit-exactly and destMinusSrc == dest-src (NaN if either missing); " +
 			"self-diff and diff of byte-identical files exit 0; diff(a,b) and diff(b,a) run in the same second give the same verdict and mirrored records; different layouts => exit 2; glob: verdict 1 <=> any file differs and every matched file has its now: line. " +
 			"non-trivial = scenario whose expected set is non-empty AND a proper subset of the compared slots; distinct by scenario parameters.",
 		Assumptions: []string{
@@ -101,6 +101,21 @@ func checkDiffRecords(c *fw.Ctx, got []diffLine, want []expDiff, det fw.J) bool 
 		c.Violationf("diff-record-count", det, "diff listed %d differing slots, the files differ in %d slots of the window", len(got), len(want))
 		return false
 	}
+	// the statement fixes WHICH slots are listed, not their order: both lists are ordered by (archive, time)
+	got = append([]diffLine(nil), got...)
+	want = append([]expDiff(nil), want...)
+	sort.SliceStable(got, func(i, j int) bool {
+		if got[i].Arch != got[j].Arch {
+			return got[i].Arch < got[j].Arch
+		}
+		return got[i].T < got[j].T
+	})
+	sort.SliceStable(want, func(i, j int) bool {
+		if want[i].Arch != want[j].Arch {
+			return want[i].Arch < want[j].Arch
+		}
+		return want[i].T < want[j].T
+	})
 	for i := range got {
 		g, w := got[i], want[i]
 		c.Count("records_checked", 1)
@@ -411,8 +426,19 @@ func (c09) Run(c *fw.Ctx) {
 				c.Violationf("diff-not-symmetric", fw.J{"scenario": sc, "ab": res.brief(), "ba": res2.brief()}, "diff(a,b) exited %d with %d records, diff(b,a) exited %d with %d records at the same clock", res.Exit, len(out.Diffs), res2.Exit, len(out2.Diffs))
 				return
 			}
-			for i := range out.Diffs {
-				x, y := out.Diffs[i], out2.Diffs[i]
+			byAT := func(d []diffLine) []diffLine {
+				d = append([]diffLine(nil), d...)
+				sort.SliceStable(d, func(i, j int) bool {
+					if d[i].Arch != d[j].Arch {
+						return d[i].Arch < d[j].Arch
+					}
+					return d[i].T < d[j].T
+				})
+				return d
+			}
+			ab, ba := byAT(out.Diffs), byAT(out2.Diffs)
+			for i := range ab {
+				x, y := ab[i], ba[i]
 				if x.Arch != y.Arch || x.T != y.T || !sameFloat(x.Src, y.Dest) || !sameFloat(x.Dest, y.Src) {
 					c.Violationf("diff-not-symmetric", fw.J{"scenario": sc, "ab_line": x.Raw, "ba_line": y.Raw}, "record %d of diff(b,a) is not the mirror of diff(a,b)", i)
 					return
